@@ -57,12 +57,15 @@ Theorem C09_single_inheritance_computable : forall ct c pos kw,
   out_of (construct cur ct c pos kw) = expected ct c pos kw.
 Proof. exact construct_in_scope. Qed.
 
-(* __post_init__: exactly the one type(self) resolves to, exactly once *)
+(* __post_init__: exactly the one type(self) resolves to, exactly once, after all attributes
+   (the overflow attribute included) are set *)
 Theorem C09_post_init_once : forall ct c pos kw s,
   wf_table ct -> In c (map k_id ct) ->
   wfc (anc ct c) -> generated_only (anc ct c) -> key_guard (anc ct c) pos kw ->
   construct cur ct c pos kw = Ok s ->
-  s_post s = match find k_post (anc ct c) with Some k => [k_id k] | None => [] end.
+  s_post s = match find k_post (anc ct c) with
+             | Some k => [(k_id k, map fst (s_dict s))]   (* it finds every attribute set *)
+             | None => [] end.
 Proof. exact post_init_once. Qed.
 
 (* never twice, for EVERY class table: multiple inheritance, hand-written constructors, any
@@ -118,10 +121,10 @@ Proof. vm_compute. repeat split. Qed.
 Example C09_nonvacuous_result :
   out_of (construct cur ex_ct 4 None [(4, AInt 10); (8, AInt 0); (2, AInt 3)])
   = Ok (mkout [(1, AStr 1); (3, AList [AInt 7]); (4, AInt 11);
-               (6, ADict [(8, AInt 0); (2, AInt 3)])] [4] [])
+               (6, ADict [(8, AInt 0); (2, AInt 3)])] [(4, [1; 3; 4; 6])] [])
   /\ expected ex_ct 4 None [(4, AInt 10); (8, AInt 0); (2, AInt 3)]
      = Ok (mkout [(1, AStr 1); (3, AList [AInt 7]); (4, AInt 11);
-                  (6, ADict [(8, AInt 0); (2, AInt 3)])] [4] [])
+                  (6, ADict [(8, AInt 0); (2, AInt 3)])] [(4, [1; 3; 4; 6])] [])
   /\ out_of (construct cur ex_ct 1 None []) = Err TypeErr          (* key required *)
   /\ out_of (construct cur ex_ct 4 (Some (AStr 2)) [(1, AStr 1)]) = Err TypeErr  (* key twice *)
   /\ out_of (construct cur ex_ct 4 None [(4, AStr 1)]) = Err TypeErr. (* "a" + 1 in the preparer *)
@@ -207,8 +210,8 @@ Definition ct_post : list cdesc :=
   [ mkcdesc 2 [1] None [] [] [] true None;
     mkcdesc 1 [] (Some deco0) [(1, TInt)] [(1, ELit (AInt 1))] [] true None ].
 Example C09_static_post_init_refuted :
-  out_of (construct (q_with 6) ct_post 2 None []) = Ok (mkout [(1, AInt 1)] [1] [])
-  /\ expected ct_post 2 None [] = Ok (mkout [(1, AInt 1)] [2] [])
+  out_of (construct (q_with 6) ct_post 2 None []) = Ok (mkout [(1, AInt 1)] [(1, [1])] [])
+  /\ expected ct_post 2 None [] = Ok (mkout [(1, AInt 1)] [(2, [1])] [])
   /\ in_scope ct_post 2 None [] = true.
 Proof. vm_compute. repeat split. Qed.
 
